@@ -62,6 +62,15 @@ def _other(cfg):
     names = [p[0] for p in l2.sig_params(b.__fn_or_cls__) if p[1] in ("PosOrKw", "KwOnly")]
     if names:
       setattr(b, names[0], 12321)
+  # containers differ too: every dict / defaultdict loses its first key and gains a new one, every
+  # second list grows (so that either side of a diff has keys / items the other side lacks)
+  for j, x in enumerate([y for y in c02.reachable(new) if isinstance(y, (dict, list))]):
+    if isinstance(x, dict):
+      if len(x) > 1:
+        del x[next(iter(x))]
+      x["zz_new_key"] = [j]
+    elif j % 2 == 0:
+      x.append(j)
   return new
 
 
